@@ -2,8 +2,9 @@
 
 Input = the raw cEMI octets.  Oracle = checks.c12.oracle_full (direct parse +
 CEMIHandler.handle_raw_cemi + the device-management receive path with the
-last-resort guards observed), preceded by one parse under the sys.monitoring step
-budget so that a non-terminating parse is recorded instead of hanging the campaign.
+last-resort guards observed), preceded by checks.c12.terminates (one parse under the
+sys.monitoring step budget) so that a non-terminating parse is recorded
+(C12:nontermination:<hot functions>) instead of hanging the campaign.
 Non-trivial (c12.nontrivial): message code L_Data.* / M_Prop* and at least one more
 octet, i.e. the input reaches CEMILData / CEMIMPropInfo parsing.
 """
@@ -13,14 +14,11 @@ from __future__ import annotations
 import random
 
 from checks import c12
-from vk.budget import StepBudget, StepBudgetExceeded
 from vk.fuzz import ctx_of, examples
 from vk.strategies import apdus as G
 from vk.strategies import cemi as S
-from xknx.cemi import CEMIFrame
 
 PROP = "C12"
-A_STEPS, B_STEPS = 20_000, 400  # steps: sys.monitoring events in xknx code (valid frames need < 300)
 
 _patched = c12.Patched()
 _rec = _patched.__enter__()  # logger.exception / handle_cemi_frame recorders stay installed for the process
@@ -46,13 +44,7 @@ def one_input(data: bytes, record) -> None:
     ctx = ctx_of(record, PROP)
     raw = bytes(data)
     del _rec.guard[:], _rec.handled[:]  # per-iteration state of the observation points
-    try:
-        with StepBudget(A_STEPS + B_STEPS * len(raw)):
-            CEMIFrame.from_knx(raw)
-    except StepBudgetExceeded as e:
+    if not c12.terminates(ctx, raw):
         ctx.case(raw, nontrivial=c12.nontrivial(raw), cls="nonterminating")
-        ctx.fail(f"C12:nontermination:{e.site}", raw, f"step budget {A_STEPS + B_STEPS * len(raw)} exhausted parsing {len(raw)} octets in {e.site}")
         return
-    except Exception:  # noqa: BLE001 - judged by the oracle below
-        pass
     c12.oracle_full(ctx, raw, _rec)
